@@ -201,11 +201,13 @@ def run_case(spec, ctx):
         if bad.any():
             i = np.where(bad)[0][0]
             # a row on a piece shared by two operand boundaries is named after the operation joining them
-            who = None
-            for i2 in np.where(bad)[0]:
-                who = geo.contact_op(E, {kk: v[[i2]] for kk, v in env.items()}, tol["tol_b"])
-                if who is None:
-                    i = i2
+            who, rank = None, -1
+            for i2 in np.where(bad)[0][:40]:
+                w = geo.contact_op(E, {kk: v[[i2]] for kk, v in env.items()}, tol["tol_b"])
+                r = 2 if w is None else (1 if not w.endswith("~") else 0)     # off the contact set > exactly on it > within rounding of it
+                if r > rank:
+                    who, rank, i = w, r, i2
+                if r == 2:
                     break
             ctx.violation("far-row-accepted", who or _blame_boundary(E, {kk: v[[i]] for kk, v in env.items()}, tol["tol_b"]),
                           f"{bad.sum()} rows farther than {100 * tol['tol_b']:.3g} from the boundary accepted, e.g. "
